@@ -12,9 +12,12 @@
 (* replays hist on a fresh real server, runs all pure successors on that    *)
 (* server and every state-changing successor on its own fresh replay.       *)
 (*                                                                         *)
-(* Mode "sim" (tlc -simulate): random behaviours of the same machine; a     *)
-(* line is printed when the behaviour has SimDepth steps, with next = {};   *)
-(* the harness compares result and audit after every step.                  *)
+(* Mode "sim": Chains independent random walks of SimDepth steps through    *)
+(* the same machine (a richer alphabet than the exhaustive instances can    *)
+(* afford): every state has ONE successor, drawn by TLC!RandomElement from  *)
+(* the commands explored in it (seeded by tlc -seed).  A line is printed    *)
+(* when a walk is complete, with next = {}; the harness compares result and *)
+(* audit after every step.                                                  *)
 (*                                                                         *)
 (* Mode "q" (queries as vectors): Init picks one of the prepared scenarios  *)
 (* (Scenarios, folded through Exec), there is no Next; the successors are   *)
@@ -23,9 +26,9 @@
 (* the pool, every LIST / LSUB pattern of the pattern pool.                 *)
 EXTENDS MemModel, Json
 
-CONSTANTS Mode, SimDepth
+CONSTANTS Mode, SimDepth, Chains
 
-VARIABLE hist
+VARIABLES hist, chain
 
 (* a command without the fields that have their default value (shorter lines) *)
 Compact(cmd) == [f \in {"op", "c"} \cup {g \in DOMAIN cmd : cmd[g] # C0[g]} |-> cmd[f]]
@@ -146,9 +149,17 @@ GenInit ==
          /\ last = f.hist[Len(f.hist)]
   ELSE Init /\ hist = <<>>
 
+GenInitAll == GenInit /\ (IF Mode = "sim" THEN chain \in 1..Chains ELSE chain = 0)
+
+Choices == IF Mode = "sim"
+           THEN LET ok == {x \in Alphabet : Allowed(St, x)} IN IF ok = {} THEN {} ELSE {RandomElement(ok)}
+           ELSE Alphabet
+
 GenNext ==
   /\ Mode # "q"
-  /\ \E cmd \in Alphabet :
+  /\ Mode = "sim" => Len(hist) < SimDepth
+  /\ chain' = chain
+  /\ \E cmd \in Choices :
        /\ Step(cmd)
        /\ hist' = Append(hist, [cmd |-> Compact(cmd), r |-> last'.r, audit |-> last'.audit, sig |-> last'.sig,
                                 pure |-> View' = View])
@@ -158,8 +169,8 @@ Succs == {StepRec(St, cmd) : cmd \in {x \in Cmds : Allowed(St, x)}}
 
 (* printing hook, evaluated once per distinct state (bfs, q) / per visited state (sim) *)
 Emit ==
-  CASE Mode = "sim" -> Len(hist) = SimDepth => PrintT(<<"T", ToJson([hist |-> hist, next |-> {}, full |-> TRUE])>>)
-    [] OTHER -> Bounded => PrintT(<<"T", ToJson([hist |-> hist, next |-> Succs, full |-> FALSE])>>)
+  CASE Mode = "sim" -> Len(hist) = SimDepth => PrintT(<<"T", ToJson([hist |-> hist, next |-> {}, full |-> TRUE, cur |-> last.audit])>>)
+    [] OTHER -> Bounded => PrintT(<<"T", ToJson([hist |-> hist, next |-> Succs, full |-> FALSE, cur |-> last.audit])>>)
 
-GenView == View
+GenView == IF Mode = "sim" THEN <<View, chain, Len(hist)>> ELSE <<View, 0, 0>>
 =============================================================================
